@@ -812,3 +812,161 @@ Proof.
 Qed.
 
 Ltac core_eq_refl := unfold core_eq; st_simpl; repeat split; reflexivity.
+
+(** * a general single-future transition: record f := x', queues := arq', asq' *)
+Lemma InvW_upd f x x' arq' asq' s :
+  InvW s -> getF f s = Some x ->
+  f_recv x' = f_recv x -> f_h x' = f_h x ->
+  (f_live x' = true -> f_live x = true) ->
+  (f_reg x' = true -> f_live x' = true /\ f_done x' = false) ->
+  NoDup (akeys arq') -> NoDup (akeys asq') ->
+  (forall f1 w1, In (f1, w1) arq' -> (f1 <> f /\ In (f1, w1) (arq s)) \/ (f1 = f /\ f_recv x = true)) ->
+  (forall f1 w1, In (f1, w1) asq' -> (f1 <> f /\ In (f1, w1) (asq s)) \/ (f1 = f /\ f_recv x = false /\ f_reg x' = true)) ->
+  (forall f1, f1 <> f -> In f1 (akeys (arq s)) -> In f1 (akeys arq')) ->
+  (forall f1, f1 <> f -> In f1 (akeys (asq s)) -> In f1 (akeys asq')) ->
+  (f_reg x' = true -> is_waiting (f_state x') = true -> In f (akeys (if f_recv x then arq' else asq'))) ->
+  (sc s = 0 -> In f (akeys arq') -> is_waiting (f_state x') = false) ->
+  (rc s = 0 -> In f (akeys asq') -> is_waiting (f_state x') = false) ->
+  (t06 (tn s) = false -> In f (akeys arq') -> f_reg x' = true) ->
+  InvW (with_arq arq' (with_asq asq' (setF f x' s))).
+Proof.
+  intros HW Hg Er Eh El Hreg Hnd1 Hnd2 Hq1 Hq2 Hk1 Hk2 Hwq Hs0 Hr0 Ht6.
+  destruct HW. constructor; unfold any_live in *; st_simpl.
+  - exact w_hnd0.
+  - apply NoDup_aset. exact w_fnd0.
+  - exact Hnd1.
+  - exact Hnd2.
+  - intros f1 w1 Hi. change (exists z, getF f1 (setF f x' s) = Some z /\ f_recv z = true). rewrite getF_setF.
+    destruct (Hq1 f1 w1 Hi) as [[Hne Ho]|[-> Hr]].
+    + destruct (N.eqb_spec f1 f); [contradiction|]. eapply w_arq_k0; eauto.
+    + rewrite N.eqb_refl. exists x'. split; [reflexivity | congruence].
+  - intros f1 w1 Hi. change (exists z, getF f1 (setF f x' s) = Some z /\ f_recv z = false /\ f_reg z = true). rewrite getF_setF.
+    destruct (Hq2 f1 w1 Hi) as [[Hne Ho]|[-> [Hr Hrg]]].
+    + destruct (N.eqb_spec f1 f); [contradiction|]. eapply w_asq_k0; eauto.
+    + rewrite N.eqb_refl. exists x'. split; [reflexivity|]. split; [congruence | exact Hrg].
+  - intros f1 y Hy Hrg. change (getF f1 (setF f x' s) = Some y) in Hy. getF_cases Hy.
+    + apply Hreg. exact Hrg.
+    + eapply w_reg0; eauto.
+  - intros f1 y Hy Hrg Hwy. change (getF f1 (setF f x' s) = Some y) in Hy. getF_cases Hy.
+    + rewrite Er. apply Hwq; assumption.
+    + specialize (w_wq0 f1 y Hy Hrg Hwy). destruct (f_recv y); [apply Hk1 | apply Hk2]; assumption.
+  - intros f1 y Hy Hl. change (getF f1 (setF f x' s) = Some y) in Hy.
+    change (exists h, getH (f_h y) s = Some h /\ h_live h = true). getF_cases Hy.
+    + rewrite Eh. apply (w_fh0 f x Hg). apply El. exact Hl.
+    + eapply w_fh0; eauto.
+  - intros Hsc f1 w1 y Hi Hy. change (getF f1 (setF f x' s) = Some y) in Hy. getF_cases Hy.
+    + apply Hs0; [exact Hsc | eapply In_akeys; exact Hi].
+    + destruct (Hq1 f1 w1 Hi) as [[_ Ho]|[E _]]; [|contradiction]. eapply w_sc1; eauto.
+  - intros Hrc f1 w1 y Hi Hy. change (getF f1 (setF f x' s) = Some y) in Hy. getF_cases Hy.
+    + apply Hr0; [exact Hrc | eapply In_akeys; exact Hi].
+    + destruct (Hq2 f1 w1 Hi) as [[_ Ho]|[E _]]; [|contradiction]. eapply w_rc1; eauto.
+  - intros T f1 w1 Hi. change (exists z, getF f1 (setF f x' s) = Some z /\ f_reg z = true). rewrite getF_setF.
+    destruct (N.eqb_spec f1 f) as [->|Hne].
+    + exists x'. split; [reflexivity|]. apply Ht6; [exact T | eapply In_akeys; exact Hi].
+    + destruct (Hq1 f1 w1 Hi) as [[_ Ho]|[E _]]; [|contradiction]. eapply w_arq_reg0; eauto.
+  - exact w_freed0.
+  - exact w_taint0.
+Qed.
+
+(* the data part when the payload cell of f does not change *)
+Lemma InvD_upd hand f x x' arq' asq' s :
+  InvD hand s -> NoDup (akeys (fs s)) -> getF f s = Some x ->
+  (forall v, cellp v x' = cellp v x) ->
+  InvD hand (with_arq arq' (with_asq asq' (setF f x' s))).
+Proof.
+  intros [A B C] Hnd Hg Hc. constructor; [exact A | exact B |].
+  intros v. specialize (C v). unfold tot in *.
+  change (cells (with_arq arq' (with_asq asq' (setF f x' s))) v) with (cells (setF f x' s) v).
+  rewrite (cells_setF_same f x x' s v Hnd Hg (Hc v)). exact C.
+Qed.
+
+(* the four registration counters after the update *)
+Lemma cnt_upd (P : fut -> bool) f x x' arq' asq' s :
+  NoDup (akeys (fs s)) -> getF f s = Some x ->
+  (cnt P (fs (with_arq arq' (with_asq asq' (setF f x' s)))) + b2n (P x) = cnt P (fs s) + b2n (P x'))%nat.
+Proof. intros Hnd Hg. change (fs (with_arq arq' (with_asq asq' (setF f x' s)))) with (fs (setF f x' s)). apply cnt_setF; assumption. Qed.
+
+Lemma InvD_ext hand s s' : core_eq s s' -> InvD hand s -> InvD hand s'.
+Proof.
+  unfold core_eq. destruct s, s'. st_simpl.
+  intros (E1 & E2 & E3 & E4 & E5 & E6 & E7 & E8 & E9 & E10 & E11 & E12 & E13 & E14 & E15 & E16). subst.
+  intros HD. destruct HD. constructor; unfold nq, ncap, tot, cells in *; st_simpl; assumption.
+Qed.
+
+Lemma InvW_ext s s' : core_eq s s' -> InvW s -> InvW s'.
+Proof.
+  unfold core_eq. destruct s, s'. st_simpl.
+  intros (E1 & E2 & E3 & E4 & E5 & E6 & E7 & E8 & E9 & E10 & E11 & E12 & E13 & E14 & E15 & E16). subst.
+  intros HW. destruct HW. constructor; unfold getF, getH, any_live in *; st_simpl; assumption.
+Qed.
+
+(** ** the wake primitives without the wake-accounting clauses (used where a wake is being passed on
+    and the accounting is momentarily one short): data + well-formedness + the effect on the counters *)
+Lemma woken_r_core hand f w x s :
+  InvD hand s -> InvW s -> In (f, w) (arq s) -> getF f s = Some x -> is_waiting (f_state x) = true ->
+  InvD hand (woken_r f w x s) /\ InvW (woken_r f w x s)
+  /\ f_recv x = true /\ (t06 (tn s) = false -> f_reg x = true).
+Proof.
+  intros HD HW Hin Hg Hw.
+  destruct (w_arq_k s HW f w Hin) as [x0 [Hg' Hrecv]]. rewrite Hg in Hg'. inversion Hg'; subst x0. clear Hg'.
+  assert (Heq : core_eq (with_arq (unlink f (arq s)) (with_asq (asq s) (setF f (set_state Success x) s))) (woken_r f w x s))
+    by (unfold woken_r; core_eq_refl).
+  split; [|split; [|split]].
+  - apply (InvD_ext hand _ _ Heq). apply InvD_upd with x; [exact HD | apply (w_fnd s HW) | exact Hg | reflexivity].
+  - apply (InvW_ext _ _ Heq). apply InvW_upd with x.
+    + exact HW.
+    + exact Hg.
+    + reflexivity.
+    + reflexivity.
+    + cbn. auto.
+    + cbn. intros Hr. apply (w_reg s HW f x Hg Hr).
+    + apply unlink_NoDup, (w_arq_nd s HW).
+    + apply (w_asq_nd s HW).
+    + intros f1 w1 Hi. apply unlink_In in Hi. destruct Hi as [Hi Hne]. left. auto.
+    + intros f1 w1 Hi. left. split; [|exact Hi]. intros ->.
+      destruct (w_asq_k s HW f w1 Hi) as [z [Hz [Hr _]]]. congruence.
+    + intros f1 Hne Hi. apply unlink_keys. auto.
+    + auto.
+    + cbn. discriminate.
+    + cbn. auto.
+    + cbn. auto.
+    + intros _ Hi. apply unlink_keys in Hi. destruct Hi as [_ Hi]. contradiction.
+  - exact Hrecv.
+  - intros T. destruct (w_arq_reg s HW T f w Hin) as [y [Hy Hr]]. congruence.
+Qed.
+
+Lemma woken_s_core keep hand f w x s :
+  InvD hand s -> InvW s -> In (f, w) (asq s) -> getF f s = Some x -> is_waiting (f_state x) = true ->
+  InvD hand (woken_s keep f w x s) /\ InvW (woken_s keep f w x s)
+  /\ f_recv x = false /\ f_reg x = true.
+Proof.
+  intros HD HW Hin Hg Hw.
+  destruct (w_asq_k s HW f w Hin) as [x0 [Hg' [Hrecv Hreg]]]. rewrite Hg in Hg'. inversion Hg'; subst x0. clear Hg'.
+  assert (Heq : core_eq (with_arq (arq s) (with_asq (if keep then asq s else unlink f (asq s)) (setF f (set_state Success x) s)))
+                        (woken_s keep f w x s))
+    by (unfold woken_s; core_eq_refl).
+  split; [|split; [|split]].
+  - apply (InvD_ext hand _ _ Heq). apply InvD_upd with x; [exact HD | apply (w_fnd s HW) | exact Hg | reflexivity].
+  - apply (InvW_ext _ _ Heq). apply InvW_upd with x.
+    + exact HW.
+    + exact Hg.
+    + reflexivity.
+    + reflexivity.
+    + cbn. auto.
+    + cbn. intros Hr. apply (w_reg s HW f x Hg Hr).
+    + apply (w_arq_nd s HW).
+    + destruct keep; [apply (w_asq_nd s HW) | apply unlink_NoDup, (w_asq_nd s HW)].
+    + intros f1 w1 Hi. left. split; [|exact Hi]. intros ->.
+      destruct (w_arq_k s HW f w1 Hi) as [z [Hz Hr]]. congruence.
+    + intros f1 w1 Hi. destruct (N.eq_dec f1 f) as [->|Hne].
+      * right. cbn. auto.
+      * left. split; [exact Hne|]. destruct keep; [exact Hi | apply unlink_In in Hi; tauto].
+    + auto.
+    + intros f1 Hne Hi. destruct keep; [exact Hi | apply unlink_keys; auto].
+    + cbn. discriminate.
+    + cbn. auto.
+    + cbn. auto.
+    + cbn. intros _ _. exact Hreg.
+  - exact Hrecv.
+  - exact Hreg.
+Qed.
